@@ -33,6 +33,8 @@ def rule_a(ctx):
     from .lockrules import drops_reaching
     ds = [d for d in drops_reaching(ctx.F, "signal_hook_registry::unregister") if d.crate == "signal_hook"]
     panic_in_drop(ctx, "C12.a2", None, drops=ds)
+    from .lockrules import cleanup_on_every_path
+    cleanup_on_every_path(ctx, "C12.a3")
 
 
 def rule_b(ctx):
@@ -330,6 +332,58 @@ def rule_f(ctx, rid="C12.f"):
                   {"registration_under_lock": [bb in reg for bb, _ in regs], "record_under_lock": [bb in reg for bb, _, _ in writes]})
 
 
+def rule_g(ctx, rid="C12.g"):
+    """every registration is on record before anything else can refuse: in whichever function the iterator's registration call
+    (`AddSignal::add_signal`) is visible, its Ok outcome leads to the write of the id into the table before the next registration call and
+    before the function returns. A batch that registers first and records afterwards loses the ids of the earlier members when a later
+    member is refused by panic: the actions stay in the registry, the destructor finds an empty table."""
+    F = ctx.F
+    ctx.rule(rid, "from the Ok outcome of every registration call made for an iterator instance, the id is written into the id table before another "
+                  "registration call and before the return (no batch that records only at the end)", floor=1)
+    from .nf import NF, boundary_callers
+    from ..conds import switch_edges
+    REG = r"AddSignal>::add_signal( - virtual#\d+)?$"
+    callers = F.callers()
+    direct = set()
+    for i in F.inst:
+        if re.search(REG, i.name):
+            for (c, k, bb) in callers.get(i.id, []):
+                if k == "call" and F.inst[c].local and F.inst[c].crate == "signal_hook":
+                    direct.add(c)
+    frames = sorted(boundary_callers(F, direct)) if direct else []
+    n_reg = 0
+    for fid in frames:
+        h0 = F.inst[fid]
+        if not (h0.local and h0.body is not None):
+            continue
+        h = NF(F, h0)
+        regs = [(bb, t) for bb, t in h.calls() if t.get("f") is not None and re.search(REG, F.inst[t["f"]].name) and not h.blocks[bb].get("dead")]
+        if not regs:
+            continue
+        ctx.fn(h0)
+        writes = {bb for bb, _, _ in _table_writes(h)}
+        rets = {b for b in range(h.nblocks()) if h.term(b)["k"] == "return" and not h.blocks[b].get("dead")}
+        for bb, t in regs:
+            n_reg += 1
+            oks = set()
+            for (b2, tgt, lab, exprs, t2) in switch_edges(h):
+                if lab == "sw:0" and any(deep_strip(e)[0] == "discr" and mentions(deep_strip(e), lambda x: x[0] == "call" and x[1] == bb) for e in exprs):
+                    oks.add(tgt)
+            key = "record-before-next:%s" % keyname(h0.name)
+            if not oks:
+                ctx.bad(rid, key, "the result of the registration call is not examined in %s (cannot tell where the Ok outcome goes)" % h0.name, t["sp"])
+                continue
+            r = set()
+            for o in oks:
+                if o not in writes:
+                    r |= cfg.reachable(h, o, avoid=writes, unwind=False)
+            hit = sorted(r & ({b for b, _ in regs} | rets))
+            ctx.check(bool(writes) and not hit, rid, key, "after a successful registration the id is recorded before the next registration and before returning", t["sp"],
+                      {"table_writes": len(writes), "reached_without_recording": [h.term(b)["sp"].split("/")[-1] for b in hit][:4]})
+    if n_reg < 1:
+        raise AnchorLost("no call of AddSignal::add_signal found in a signal-hook function")
+
+
 def _table_writes(h):
     """assignments through the reference an IndexMut call on the id table returned: [(bb, stmt index, IndexMut call blocks)]"""
     out = []
@@ -362,5 +416,6 @@ def run(ctx):
     ctx.guarded("C12.c", rule_c)
     ctx.guarded("C12.d", rule_d)
     ctx.guarded("C12.e", rule_e)
+    ctx.guarded("C12.g", rule_g)
     ctx.note("not decided: the behavioural equivalence 'instance exactly as before' over arbitrary call sequences; OS-level fd closure")
     ctx.assume("the documented panics of add_signal (forbidden / negative / too large) are the explicit panic sites found in its cone")
